@@ -204,6 +204,10 @@ class CP(L.LP):
         return L.LP.type_(self)
 
     def stmt(self):
+        if self.peek() == "#":                                 # attributes on statements: only those without effect on behaviour
+            if self.peek(1) != "[" or self.peek(2) not in ("allow", "inline", "must_use", "doc"):
+                die("attribute #[%s ..] on a statement is not supported (only allow / inline / must_use / doc)" % self.peek(2))
+            return L.LP.stmt(self)                             # skips it
         if self.peek() == "loop":                              # `loop { .. }` is `while true { .. }`
             self.eat("loop")
             if self.peek() != "{":
